@@ -118,7 +118,14 @@ impl Monitor for C09e {
         }
         let sb = Sandbox::new(env, "c09e");
         let p = sb.write_payload("P", &case.payload());
-        let cmd = format!("cat {}; (exit {})", p.display(), case.code);
+        // Cram sources also write one line to stderr: Cram records the combined stream, so the written test has to
+        // carry that setting along (after `--convert markdown`: in the one-line configuration behind the fence)
+        let cram_source = matches!(case.mode.as_str(), "create-cram" | "update-cram" | "convert-cram-md");
+        let cmd = if cram_source {
+            format!("cat {}; echo on-stderr >&2; (exit {})", p.display(), case.code)
+        } else {
+            format!("cat {}; (exit {})", p.display(), case.code)
+        };
         let wd = Duration::from_secs(60);
         let esc_args: Vec<String> = if case.escaping == "default" { vec![] } else { vec!["-e".into(), case.escaping.clone()] };
         let mut buckets = vec![format!("e2e:mode:{}", case.mode)];
